@@ -52,6 +52,8 @@ public:
     {
         results.clear();
         cse_intermediate_fns.clear();
+        // a previous init may have thrown after filling the map
+        cse_intermediate_fns_map.clear();
         symbols = inputs;
         if (not cse) {
             for (auto &p : outputs) {
